@@ -86,7 +86,9 @@ Definition add_callbacks : act :=
 (* rref.notifyOnDisconnect(self._disconnected) *)
 Definition watch : act :=
   fun s => (mkSt (active s) (stopped s) (tub s) (delay s) (timer s) (inflight s) (S (watching s)) (leaked s) (info s), [OWatch]).
-Definition user_callback : act := fun s => (s, [OCallback]).
+(* cb(rref, *args, **kwargs): the user's callback runs HERE, and may itself call the Reconnector
+   (stopConnecting / reset from inside the callback): [k] is what it does *)
+Definition user_callback (k : act) : act := seq (fun s => (s, [OCallback])) k.
 Definition remove_from_tub : act := fun s => (s, [ORemove]).
 
 (* a state whose every field __init__ must overwrite *)
